@@ -235,6 +235,12 @@ func init() {
 				}
 				files[fmt.Sprintf("f%d.css", k)] = c12Sheet(gr, d)
 			}
+			// twin files: two different files with the same text, so that the cross-file duplicate-rule
+			// removal meets identical rules (and identical condition wrappers) coming from different imports
+			twin := !dup && gr.Chance(1, 3)
+			if twin {
+				files[fmt.Sprintf("f%d.css", nf-1)] = files["f0.css"]
+			}
 			entry := ""
 			inlined := ""
 			wrap := func(body, cond string) string {
@@ -253,9 +259,16 @@ func init() {
 			if dup {
 				ni = 2 + gr.Intn(3)
 			}
+			if twin {
+				ni = nf
+				rep.stat("bundle-twin-files")
+			}
 			for k := 0; k < ni; k++ {
 				f := k % nf
 				cond := pickS(gr, "", "", "layer(x)", "layer(y)", "screen", "(min-width: 100px)")
+				if twin && (k == 0 || k == nf-1) && gr.Chance(2, 3) {
+					cond = "layer(x)"
+				}
 				if dup {
 					// the same file imported several times: only without layer conditions (an earlier copy in a
 					// deeper layer that is dropped changes !important winners: known finding c12-import-dedupe-important-layers)
